@@ -73,6 +73,8 @@ def run(idx, rep, tier):
                        bad or (f"{n_uses} selections all use the index {sorted(sel)}" if n_uses >= 2 else "fewer than two selections use the index"), detail="" if not bad else "index", locs=[rule.loc])
         # ---- sign of Sigma
         sigma_sign(idx, rep, rule)
+        # ---- one factor returned as both U and V: U Sigma U^H is Hermitian PSD, so the exit must be restricted to PSD operands
+        same_factor(idx, rep, rule, kinds)
         # ---- Gram operator / back substitution
         if algs in (["Lanczos"], ["LOBPCG"]):
             krylov_svd(idx, rep, rule)
@@ -97,6 +99,43 @@ def run(idx, rep, tier):
                        "Krylov rules must run the eigen-solver on H(A)·A or A·H(A) and recover the other factor with the matching product (TERM); pinv rules as in C06.")
     rep.assumptions += ["orthonormality, best rank-k and minimum-norm optimality are not decided", "annotations of U, V are C05; dispatch is C04",
                         "the CG pinv rule regularises on purpose and carries no exact-algebra obligation"]
+
+
+def same_factor(idx, rep, rule, kinds):
+    fi = rule.func
+    a = rule.params[0][0]
+    for r in [r for r in df.returns(fi.node) if r.value is not None and isinstance(r.value, ast.Tuple) and len(r.value.elts) == 3]:
+        u, sg, v = r.value.elts
+        if ast.unparse(u) != ast.unparse(v):
+            continue
+        # guards of this exit
+        node = getattr(r, "_origin", r)
+        psd = herm = False
+        child, p = node, getattr(node, "_parent", None)
+        tests = []
+        while p is not None and p is not fi.node:
+            if isinstance(p, ast.If) and any(x is child for x in p.body):
+                tests.append(p.test)
+            child, p = p, getattr(p, "_parent", None)
+        rule_cond = getattr(rule, "cond", None)
+        if isinstance(rule_cond, ast.Lambda):
+            tests.append(rule_cond.body)
+        for t in tests:
+            for c in ast.walk(t):
+                if isinstance(c, ast.Call) and isinstance(c.func, ast.Attribute) and c.func.attr == "isa" and c.args:
+                    rr = idx.resolve_expr(fi.module, c.args[0], fi)
+                    name = rr.val.name if rr is not None and rr.kind == "class" else ast.unparse(c.args[0])
+                    psd = psd or name == "PSD"
+                    herm = herm or name in ("SelfAdjoint", "PSD")
+        loc = [idx.loc(fi.module, r)]
+        if psd or kinds == ["Identity"]:
+            rep.proved("same-factor", rule.role, f"`{ast.unparse(u)[:40]}` is returned as U and as V on an exit restricted to positive semi-definite operands", locs=loc)
+            continue
+        # Sigma equal to the operand itself (Diagonal rule) keeps the signs in Sigma: that is the sigma-sign finding, not this one
+        if ast.unparse(sg) == a:
+            continue
+        rep.refuted("same-factor", rule.role, f"`{ast.unparse(u)[:40]}` is returned as both U and V" + (" for every self-adjoint operand" if herm else "") + ": U·Sigma·U^H with Sigma >= 0 is positive "
+                    "semi-definite, so an operand with a negative eigenvalue is not reconstructed (the signs of its eigenvalues are lost)", detail="needs-psd", locs=loc)
 
 
 def sigma_sign(idx, rep, rule):
